@@ -147,7 +147,9 @@ def run_check(mod, tier, seed, workers=None, only_case=None):
                 if r.get('nontrivial'):
                     ctx.nontrivial.add(r.get('ntkey', r['idx']))
                 for k, v in r.get('extra', {}).items():
-                    if isinstance(v, (int, float)):
+                    if isinstance(v, (int, float)) and 'max' in k.split('_'):
+                        ctx.extra[k] = max(ctx.extra.get(k, 0), v)   # counters named *max* are maxima over the cases
+                    elif isinstance(v, (int, float)):
                         ctx.extra[k] = ctx.extra.get(k, 0) + v
                     elif isinstance(v, list):
                         ctx.extra.setdefault(k, set()).update(v)
